@@ -3,6 +3,7 @@ from __future__ import annotations
 
 import collections
 import copy
+from typing import List
 import json
 
 from hypothesis import strategies as st
@@ -31,6 +32,9 @@ RULE = ("Hypothesis draws a conversion program over an opaque wrapper class W (a
         "also for the subclass (inherited) and refused for it when inherited=False; jsonschema validity of d against schema(nest[W]) == "
         "validity against the anyOf of schema(S_i); a dynamic conversion reaches container elements but leaves the field of a nested "
         "object as without it; conversion=identity restores the native behaviour of a dataclass having a registered conversion.  "
+        "A recursive family (1 case in 7): Tree(label, children: List[Tree]) <-> Tagged(tag, node: Tree) with the conversion at field level "
+        "and / or passed dynamically for List[Tree], random trees; expected images computed by hand (field-level: every children list at "
+        "every depth is tagged; dynamic: the elements of the root list only), deserialization gives the value back and refuses untagged data.  "
         "Non-trivial: the conversion is reached through >= 1 container, or >= 2 deserializers / a chain are composed.  "
         "Distinct = hash(program, datum shape).")
 ASSUMPTIONS = ["sources are evaluated alone through the public deserialize / serialize (metamorphic oracle, no model)"]
@@ -87,8 +91,104 @@ def strategy_(draw, tier):
     return {"prog": prog, "data": data, "values": values}
 
 
+# ---------------------------------------------------------------------------------------
+# recursive family: a conversion met at two places of one recursive cycle
+# ---------------------------------------------------------------------------------------
+
+REC_SRC = (
+    "from apischema.conversions import Conversion\n"
+    "def to_tagged(t: 'Tree') -> 'Tagged':\n    return Tagged('tree', t)\n"
+    "def from_tagged(g: 'Tagged') -> 'Tree':\n    return g.node\n"
+    "@dataclass\nclass Tree:\n    label: str\n"
+    "    children: List['Tree'] = field(default_factory=list{FIELD_MD})\n"
+    "@dataclass\nclass Tagged:\n    tag: str\n    node: Tree\n")
+FIELD_MD = ", metadata=conversion(deserialization=from_tagged, serialization=to_tagged)"
+
+trees = st.recursive(st.builds(lambda l: [l, []], st.sampled_from(["a", "b", "c"])),
+                     lambda ch: st.builds(lambda l, kids: [l, kids], st.sampled_from(["a", "b"]), st.lists(ch, max_size=3)), max_leaves=6)
+
+
+def rec_image(tree, field_level: bool, dynamic: bool, top=True):
+    """Expected JSON of a Tree [label, kids]: a field-level conversion tags every `children` list at every depth; a
+    dynamic conversion given for List[Tree] tags the elements of that list only (it does not enter object fields)."""
+    label, kids = tree
+    kid_imgs = [rec_image(k, field_level, False, False) for k in kids]
+    if field_level:
+        kid_imgs = [{"tag": "tree", "node": k} for k in kid_imgs]
+    return {"label": label, "children": kid_imgs}
+
+
+def rec_value(mod, tree):
+    return mod.Tree(tree[0], [rec_value(mod, k) for k in tree[1]])
+
+
+def evaluate_rec(case, ctx):
+    fl = case["field_level"]
+    src = build.PRELUDE + REC_SRC.replace("{FIELD_MD}", FIELD_MD if fl else "")
+    try:
+        b = build.load({"future": False, "enums": [], "newtypes": [], "classes": []}, source=src)
+    except Exception as e:
+        raise HarnessError(f"recursive conversion program does not build: {e!r}\n{src}")
+    try:
+        mod = b.module
+        for tree in case["trees"]:
+            ctx.count()
+            single = dict(case, trees=[tree])
+            depth = _tree_depth(tree)
+            # serialization
+            for root_list in (False, True):
+                dyn = root_list and case["dynamic"]
+                val = [rec_value(mod, tree)] if root_list else rec_value(mod, tree)
+                tp = List[mod.Tree] if root_list else mod.Tree
+                exp = rec_image(tree, fl, False)
+                if root_list:
+                    exp = [{"tag": "tree", "node": exp}] if dyn else [exp]
+                kw = {"conversion": mod.to_tagged} if dyn else {}
+                try:
+                    got = serialize(tp, val, **kw)
+                except Exception as e:
+                    got = f"raised {type(e).__name__}"
+                if got != exp:
+                    ctx.violation({"side": "serialization", "kind": "recursive_image_differs", "field_level": fl, "dynamic": dyn, "depth": min(depth, 3)}, single,
+                                  f"serialize({'List[Tree]' if root_list else 'Tree'}, {val!r}{', conversion=to_tagged' if dyn else ''}) = {got!r}\nexpected {exp!r}\n{src[-700:]}")
+                # deserialization of the expected image gives the value back; the un-tagged image is refused where tags are expected
+                dkw = {"conversion": mod.from_tagged} if dyn else {}
+                try:
+                    back = deserialize(tp, copy.deepcopy(exp), **dkw)
+                except Exception as e:
+                    back = f"raised {type(e).__name__}"
+                if back != val:
+                    ctx.violation({"side": "deserialization", "kind": "recursive_value_differs", "field_level": fl, "dynamic": dyn, "depth": min(depth, 3)}, single,
+                                  f"deserialize of {exp!r} = {back!r}\nexpected {val!r}\n{src[-700:]}")
+                if (fl and depth >= 2) or dyn:
+                    plain = rec_image(tree, False, False)
+                    plain = [plain] if root_list else plain
+                    if plain != exp:
+                        try:
+                            deserialize(tp, copy.deepcopy(plain), **dkw)
+                            ctx.violation({"side": "deserialization", "kind": "untagged_accepted", "field_level": fl, "dynamic": dyn}, single,
+                                          f"{plain!r} accepted although converted elements are expected\n{src[-700:]}")
+                        except ValidationError:
+                            pass
+            if depth >= 2 and (fl or case["dynamic"]):
+                ctx.nontriv(["rec", fl, case["dynamic"], tree])
+                ctx.sample({"program": "recursive Tree / Tagged family", "field_level_conversion": fl, "dynamic": case["dynamic"], "tree": tree})
+        ctx.h("rec_family")
+    finally:
+        b.close()
+
+
+def _tree_depth(tree) -> int:
+    return 1 + max([_tree_depth(k) for k in tree[1]], default=0)
+
+
+@st.composite
+def rec_strategy(draw):
+    return {"rec": True, "field_level": chance(draw, 0.6), "dynamic": chance(draw, 0.5), "trees": draw(st.lists(trees, min_size=2, max_size=5))}
+
+
 def strategy(tier):
-    return strategy_(tier)
+    return st.one_of(strategy_(tier), strategy_(tier), strategy_(tier), strategy_(tier), strategy_(tier), strategy_(tier), rec_strategy())
 
 
 def render(p) -> str:
@@ -143,6 +243,8 @@ def render(p) -> str:
 
 
 def describe(case):
+    if case.get("rec"):
+        return f"recursive Tree / Tagged family, field_level={case['field_level']}, dynamic={case['dynamic']}, trees={case['trees']}"
     return render(case["prog"])
 
 
@@ -151,6 +253,8 @@ class Reject(Exception):
 
 
 def evaluate(case, ctx):
+    if case.get("rec"):
+        return evaluate_rec(case, ctx)
     p = case["prog"]
     src = render(p)
     try:
